@@ -83,6 +83,9 @@ func (n *Net) doCanned(c *Call, req *http.Request) (*http.Response, error) {
 	}
 	resp.Body = &respBody{e: e, resp: resp}
 	e.resp = resp
+	e.mu.Lock()
+	e.RespReturned = true
+	e.mu.Unlock()
 	return resp, nil
 }
 
